@@ -20,9 +20,9 @@ PS_MEM, PS_LIMIT, PS_ARG, PS_FAIL = -8, -9, -6, -1
 # ops modelled in Gallina (correspondence impl <-> model); everything else is explored impl-vs-Python only
 MODELLED = {"add", "sub", "sub_s", "s_add", "add_d", "sub_d", "mul_d", "mul_2", "div_2", "mul_2d", "mod_2d", "div_2d",
             "lshd", "rshd", "2expt", "cmp", "cmp_mag", "cmp_d", "count_bits", "copy", "abs", "clamp", "zero", "set",
-            "mul", "sqr", "read_bin", "to_bin", "mont_setup", "mont_norm", "mont_reduce"}
+            "mul", "sqr", "read_bin", "to_bin", "mont_setup", "mont_norm", "mont_reduce", "bin_size"}
 STATIC_OPS = {"mul_2d", "mod_2d", "s_add"}
-EXPLORED_ONLY = ["div", "mod", "mulmod", "exptmod", "invmod", "bin_size"]
+EXPLORED_ONLY = ["div", "mod", "mulmod", "exptmod", "invmod"]
 
 
 # ------------------------------------------------------------------------------------------ operand helpers
@@ -211,12 +211,14 @@ def spec(op, alias, K, ops):
         if a % 2 == 0: e.must_fail = True; e.may_fail |= {PS_ARG}
         else: e.rho = (-pow(abs(a) % W, -1, W)) % W
     elif op == "mont_norm":
-        if b == 0: e.pre = False
-        else: e.vals["a"] = pow(W, ub, abs(b)) if ub > 0 else 0
+        if abs(b) <= 1 or b % 2 == 0: e.pre = False  # Montgomery form needs an odd modulus > 1
+        else: e.vals["a"] = pow(W, ub, abs(b))
     elif op == "mont_reduce":
         m = b
         if m % 2 == 0: e.must_fail = True; e.may_fail |= {PS_ARG}
         elif m <= 0 or a < 0: e.pre = False
+        elif ops[P[0]][1] < ub + 1 or ua > 2 * ub:
+            e.must_fail = True; e.may_fail |= {PS_LIMIT}      # pa+1 digits are written back; scratch holds 2*pa+1 digits
         else:
             R = W ** ub
             if a < m * R:
@@ -440,15 +442,17 @@ def gen_mul(r, big):
     if big:
         na = r.choice([40, 64, 95, 96, 97, 120, 191, 192]); nb = r.choice([1, 2, MAXN - na, MAXN - na, MAXN - na + 1, 96])
         nb = max(0, min(nb, MAXN))
+    elif r.random() < 0.18:
+        na = nb = r.choice([16, 16, 32])             # the unrolled 16x16 / 32x32 digit code paths (exactly these used counts)
     else:
-        na = r.choice([0, 1, 1, 2, 3, 4, 5, 7, 8, 9, 12, 16, 17, 24]); nb = r.choice([0, 1, 2, 3, 4, 5, 8, 9, 16, 20])
+        na = r.choice([0, 1, 1, 2, 3, 4, 5, 7, 8, 9, 12, 15, 16, 17, 24]); nb = r.choice([0, 1, 2, 3, 4, 5, 8, 9, 15, 16, 17, 20])
     a = gen_val(r, na); b = clip(related(r, a)) if r.random() < 0.3 else gen_val(r, nb)
     al = r.choice(ALIAS3)
     if al.startswith("b=a"): b = a
     return "mul %s %d %s %s %s -" % (al, r.choice([0, 0, 1, 1, 2]), opnd(a, gen_alloc(r, a)), opnd(b, gen_alloc(r, b)), dest(r))
 
 def gen_sqr(r, big):
-    na = r.choice([48, 64, 95, 96, 97, 192]) if big else r.choice([0, 1, 1, 2, 3, 4, 5, 7, 8, 9, 15, 16, 17, 24, 32])
+    na = r.choice([48, 64, 95, 96, 97, 192]) if big else r.choice([0, 1, 1, 2, 3, 4, 5, 7, 8, 9, 15, 16, 16, 16, 17, 24, 31, 32, 32, 33])
     a = gen_val(r, na)
     return "sqr %s %d %s - %s -" % (r.choice(["-", "-", "c=a"]), r.choice([0, 0, 1, 1, 2]), opnd(a, gen_alloc(r, a)), dest(r))
 
@@ -624,6 +628,13 @@ def limit_cases():
         out.append("read_bin - - %s - %s -" % ("00" * (n - 1) + "01", opnd(0, MAXN)))
     for k in (MAXN * DIGIT_BIT - 1, MAXN * DIGIT_BIT, 32767, -1, -32768):
         out.append("2expt - %d %s - - -" % (k, opnd(5, 1)))
+    # pstm_montgomery_reduce: destination too small for pa+1 digits / operand longer than 2*pa digits
+    for n in (1, 4, 8, 9):
+        m = (W ** n - 1) | 1
+        out.append("mont_reduce - 0 %s %s - -" % (opnd(5, n), opnd(m, n)))
+        out.append("mont_reduce - 1 %s %s - -" % (opnd(W ** (2 * n + 1) - 1, 2 * n + 3), opnd(m, n)))
+        out.append("mont_reduce - 0 %s %s - -" % (opnd(W ** (2 * n) - 1, 2 * n + 1), opnd(m, n)))
+        out.append("mont_reduce - 2 %s %s - -" % (opnd(m * W ** n - 1, n + 1 if 2 * n <= n + 1 else 2 * n), opnd(m, n)))
     # borrow travelling through zero digits beyond the shorter operand
     for nz in (1, 2, 3, 10):
         a = W ** (nz + 1) * 0x100
@@ -684,7 +695,7 @@ def build_cases(ck):
     cases = corpus_cases()
     ck.cov["corpus_cases"] = len(cases)
     cases += limit_cases()
-    n = ck.budget(9000, 400000)
+    n = ck.budget(6000, 120000)
     ops = [o for o, w in OPS_WEIGHT for _ in range(w)]
     seen = set(cases)
     tries = 0
@@ -762,6 +773,13 @@ def run(ck):
     ck.cov["spec_oracle_violating_cases"] = nviol
     ck.cov["explored_only"] = {op: sum(1 for c in cases if c.split()[0] == op) for op in EXPLORED_ONLY}
     ck.cov["exhaustive"] = False
+    ck.cov["proved_for_all_operands"] = ["pstm_add", "pstm_sub", "s_pstm_add", "pstm_sub_s", "pstm_cmp", "pstm_cmp_mag", "pstm_clamp", "pstm_mul_d",
+                                         "pstm_add_d", "pstm_sub_d", "pstm_mul_2", "pstm_copy", "pstm_lshd", "pstm_rshd", "pstm_mul_comba (generic)",
+                                         "pstm_sqr_comba (generic)"]
+    ck.cov["modelled_correspondence_only"] = ["pstm_div_2 (totality proved)", "pstm_mul_2d", "pstm_mod_2d", "pstm_div_2d", "pstm_2expt", "pstm_cmp_d",
+                                              "pstm_count_bits", "pstm_unsigned_bin_size", "pstm_abs", "pstm_zero", "pstm_set", "pstm_read_unsigned_bin",
+                                              "pstm_to_unsigned_bin", "pstm_montgomery_setup", "pstm_montgomery_calc_normalization",
+                                              "pstm_montgomery_reduce", "unrolled pstm_mul_comba16/32 and pstm_sqr_comba16/32 (against the generic model)"]
     # ---- Impl vs Model
     if drv is None:
         return
